@@ -336,11 +336,11 @@ def alDeny5 : AllowList := { base := fun _ => true, inside := fun a u => !(a == 
 /-- the state of an initiator that dialled address 2 and has sent its first message -/
 def xDial2 : NodeX := (NodeX.init cfg0).run alDeny5 [.base (.lh 2 1), .base (.rehs 2), .base (.tick 0), .base (.tick 100000000), .base (.tick 200000000)]
 
-/-- KNOWN FINDING (class c09-initiator-installed-denied-for-other-cert-address): `denied_underlay_installs_nothing` at
-full strength for the initiator (sender refused for ANY certificate address ⇒ nothing installed) is FALSE of the code:
-continueHandshake asks the list before the certificate is known and never again. Witness: the list refuses underlay 1
-for overlay address 5 only; a responder refuses the certificate [2, 5] from underlay 1, an initiator that dialled 2
-installs the tunnel from underlay 1 under both 2 and 5. -/
+/-- OBSERVATION (outside C09 — the property says nothing about the allow list; not a finding): the responder's form of
+`denied_underlay_installs_nothing` (sender refused for ANY certificate address ⇒ nothing installed) does NOT hold for the
+initiator: continueHandshake asks the list about the dialled address before the certificate is known and never again.
+Witness: the list refuses underlay 1 for overlay address 5 only; a responder refuses the certificate [2, 5] from
+underlay 1, an initiator that dialled 2 installs the tunnel from underlay 1 under both 2 and 5. -/
 theorem initiator_not_asked_about_other_certificate_addresses :
     alDeny5.all c0.certAddrs 1 = false ∧
     -- responder: refused
